@@ -44,6 +44,19 @@ struct Call
 // ---------------------------------------------------------------------------------------------------------------
 // helpers
 // ---------------------------------------------------------------------------------------------------------------
+// Seed ARGUMENT given to the random procedures. Normally drawn from the call's sub-stream; a history can force it so
+// that several calls of one process are given the SAME seed (a repetition must restart the stream, not continue it).
+// -1: the value law_get_random_seed() had when the process started.
+inline int& forcedSeed() { static int s = 0; return s; }
+inline int& initialSeed() { static int s = 0; return s; }
+inline int libSeed(Rng& q, int offset = 0)
+{
+  int drawn = q.irange(1, 100000);
+  if (forcedSeed() == 0) return drawn;
+  if (forcedSeed() < 0) return initialSeed();
+  return forcedSeed() + offset;
+}
+
 inline DbSpec dataSpec(Rng& q, int nvarMax = 1)
 {
   DbSpec s;
@@ -246,7 +259,7 @@ inline std::string callSimtub(Rng& q)
   UModel m = mkModel(q, ms);
   std::unique_ptr<NeighUnique> n(NeighUnique::create());
   int nc = out->getColumnNumber();
-  int rc = simtub(in.get(), out.get(), m.get(), cond ? n.get() : nullptr, q.irange(1, 2), q.irange(1, 100000), 20);
+  int rc = simtub(in.get(), out.get(), m.get(), cond ? n.get() : nullptr, q.irange(1, 2), libSeed(q), 20);
   return outDigest(rc, out.get(), nc);
 }
 inline std::string callSimfft(Rng& q)
@@ -260,7 +273,7 @@ inline std::string callSimfft(Rng& q)
   UModel m  = mkModel(q, ms);
   SimuFFTParam par(true, 0.1);
   int nc = out->getColumnNumber();
-  int rc = simfft(out.get(), m.get(), par, 1, q.irange(1, 100000));
+  int rc = simfft(out.get(), m.get(), par, 1, libSeed(q));
   return outDigest(rc, out.get(), nc);
 }
 inline std::string callGibbs(Rng& q)
@@ -271,7 +284,7 @@ inline std::string callGibbs(Rng& q)
   db->addColumnsByConstant(1, +bound, "Bounds", ELoc::U);
   UModel m(Model::createFromParam(ECov::EXPONENTIAL, q.uni(2, 5), 1.));
   int nc = db->getColumnNumber();
-  int rc = gibbs_sampler(db.get(), m.get(), 1, q.irange(1, 100000), 3, 5, false, false, false, false, false, 0, 5., false, false, false);
+  int rc = gibbs_sampler(db.get(), m.get(), 1, libSeed(q), 3, 5, false, false, false, false, false, 0, 5., false, false, false);
   return outDigest(rc, db.get(), nc);
 }
 inline std::string callMigrate(Rng& q)
@@ -331,13 +344,19 @@ inline std::string callPCA(Rng& q)
 inline std::string callDbRandom(Rng& q)
 {
   // random fillers with an explicit seed argument
-  int seed = q.irange(1, 100000);
+  int seed = libSeed(q);
   UDb a(Db::createFillRandom(q.irange(5, 20), 2, q.irange(1, 2), 0, 0, q.coin() ? 0.3 : 0., q.coin() ? 0.3 : 0., VectorDouble(), VectorDouble(), VectorDouble(), seed));
   UDb b(Db::createFromBox(q.irange(5, 20), VectorDouble({0., 0.}), VectorDouble({10., 20.}), seed + 1));
   b->addColumnsRandom(2, "rnd", ELoc::Z, 0, seed + 2);
   b->addSelectionRandom(0.6, seed + 3);
   UDb cdb(Db::createSamplingDb(a.get(), 0.5, 0, VectorString(), seed + 4));
   return digOf([&](Dig& g) { digDb(g, a.get()); digDb(g, b.get()); digDb(g, cdb.get()); });
+}
+inline std::string callDbFillRandom(Rng& q)
+{
+  // one seeded filler alone (a single seeding per call: repeating it with the same seed must give the same Db)
+  UDb a(Db::createFillRandom(q.irange(5, 20), 2, q.irange(1, 2), 0, 0, 0., 0., VectorDouble(), VectorDouble(), VectorDouble(), libSeed(q)));
+  return digOf([&](Dig& g) { digDb(g, a.get()); });
 }
 inline std::string callPolygon(Rng& q)
 {
@@ -397,7 +416,7 @@ inline std::string callNFRoundTrip(Rng& q)
 inline std::string callLaw(Rng& q)
 {
   // the documented way to get reproducible draws: give the seed, then draw
-  law_set_random_seed(q.irange(1, 1000000));
+  law_set_random_seed(libSeed(q));
   return digOf([&](Dig& g) {
     for (int k = 0; k < 5; k++) { g.d(law_uniform()); g.d(law_gaussian()); g.i(law_int_uniform(0, 100)); g.d(law_exponential()); g.d(law_gamma(2.)); g.i(law_poisson(3.)); }
     digVI(g, law_random_path(7));
@@ -563,6 +582,7 @@ inline const std::vector<Call>& catalogue()
     {"anamorphosis", callAnam, false, false},
     {"pca", callPCA, false, false},
     {"db-random", callDbRandom, true, false},
+    {"db-fill-random", callDbFillRandom, true, false},
     {"polygon", callPolygon, false, false},
     {"grid-conversions", callGridConv, false, false},
     {"nf-roundtrip", callNFRoundTrip, false, false, "variogram-computation"},
